@@ -394,7 +394,14 @@ def check_successive(case):
         except IndexError as e:
           failure.append(Violation('scope-stack-corrupted', f'thread #{i}: IndexError: {e}'))
 
-      t = threading.Thread(target=run)
+      if case.get('ctxcopy') and i % 2 == 1:
+        # a thread whose target runs in a copy of this thread's context (what asyncio.to_thread
+        # and some executors do): still a thread of its own as far as scopes go
+        import contextvars  # pylint: disable=g-import-not-at-top
+        t = threading.Thread(target=contextvars.copy_context().run, args=(run,))
+        labels.add('thread-runs-in-a-copied-context')
+      else:
+        t = threading.Thread(target=run)
       t.start()
       t.join()
       if failure:
@@ -466,7 +473,7 @@ def _threads_case(draw):
 def _successive_case(draw):
   threads = [[draw(_nodes(2, _valid_spec)), draw(st.sampled_from(['', 'a', 'a/b', 'x']))]
              for _ in range(draw(st.integers(2, 4)))]
-  return {'kind': 'successive', 'threads': threads,
+  return {'kind': 'successive', 'threads': threads, 'ctxcopy': draw(st.booleans()),
           'main_scope': draw(st.sampled_from(['', '', 'y', 'b/a']))}
 
 
